@@ -1,5 +1,8 @@
 /* Differential driver for C17: runs the real dll.c on operation sequences.
-   Input: lines "N <nelem> <nempty>" (reset), "F i j", "L i j", "R i k", "S i k j", "P" (print).
+   Input: lines "N <nelem> <nempty>" (reset), "F i j", "L i j", "R i k", "S i k j", "P" (print),
+   "T <op ...>" (save the whole state -- elements, list heads, number of lists -- on a stack, apply the op, print) and
+   "O" (restore the state saved by the matching T): a tree of operation sequences is walked with one op per node, each
+   sequence seeing exactly the memory contents its prefix left behind.
    Output for P: for each list "fwd: ... | bwd: ..." using first/next and last/prev with a step bound. */
 #include "nsync_cpp.h"
 #include "platform.h"
@@ -8,12 +11,16 @@
 #include "dll.h"
 #include <stdio.h>
 #include <string.h>
+#include <stdlib.h>
 NSYNC_CPP_USING_
 
 #define MAXE 64
 static nsync_dll_element_ el[MAXE];
 static nsync_dll_list_ lists[4 * MAXE];
 static int nlists, nel;
+#define MAXSNAP 16
+static struct { nsync_dll_element_ el[MAXE]; nsync_dll_list_ lists[4 * MAXE]; int nlists; } snap[MAXSNAP];
+static int nsnap;
 
 static int idx (nsync_dll_element_ *e) { return e == NULL ? 0 : (int) (e - el); }
 static nsync_dll_element_ *kth (nsync_dll_list_ l, int k) {
@@ -36,35 +43,53 @@ static void print_all (void) {
 	}
 	printf ("\n");
 }
+static int apply (const char *op) {
+	int a, b, c;
+	if (op[0] == 'F') {
+		if (scanf ("%d %d", &a, &b) != 2) return 2;
+		lists[a] = nsync_dll_make_first_in_list_ (lists[a], nsync_dll_first_ (lists[b])); lists[b] = NULL;
+	} else if (op[0] == 'L') {
+		if (scanf ("%d %d", &a, &b) != 2) return 2;
+		lists[a] = nsync_dll_make_last_in_list_ (lists[a], nsync_dll_last_ (lists[b])); lists[b] = NULL;
+	} else if (op[0] == 'R') {
+		nsync_dll_element_ *e;
+		if (scanf ("%d %d", &a, &b) != 2) return 2;
+		e = kth (lists[a], b);
+		lists[a] = nsync_dll_remove_ (lists[a], e);
+		lists[nlists++] = e;
+	} else if (op[0] == 'S') {
+		if (scanf ("%d %d %d", &a, &b, &c) != 3) return 2;
+		nsync_dll_splice_after_ (kth (lists[a], b), nsync_dll_first_ (lists[c])); lists[c] = NULL;
+	} else return 3;
+	return 0;
+}
 int main (void) {
 	char op[8];
-	int a, b, c;
+	int a, b, r;
+	/* after a crash the checker reruns the input with this set, so that every completed operation's line is seen */
+	if (getenv ("DLL_DRIVER_FLUSH") != NULL) setvbuf (stdout, NULL, _IOLBF, 0);
 	while (scanf ("%7s", op) == 1) {
 		if (op[0] == 'N') {
 			int i;
 			if (scanf ("%d %d", &a, &b) != 2) return 2;
-			nel = a; nlists = 0;
+			nel = a; nlists = 0; nsnap = 0;
 			memset (el, 0, sizeof (el));
 			for (i = 1; i <= nel; i++) { nsync_dll_init_ (&el[i], &el[i]); lists[nlists++] = &el[i]; }
 			for (i = 0; i < b; i++) lists[nlists++] = NULL;
-		} else if (op[0] == 'F') {
-			if (scanf ("%d %d", &a, &b) != 2) return 2;
-			lists[a] = nsync_dll_make_first_in_list_ (lists[a], nsync_dll_first_ (lists[b])); lists[b] = NULL;
-		} else if (op[0] == 'L') {
-			if (scanf ("%d %d", &a, &b) != 2) return 2;
-			lists[a] = nsync_dll_make_last_in_list_ (lists[a], nsync_dll_last_ (lists[b])); lists[b] = NULL;
-		} else if (op[0] == 'R') {
-			nsync_dll_element_ *e;
-			if (scanf ("%d %d", &a, &b) != 2) return 2;
-			e = kth (lists[a], b);
-			lists[a] = nsync_dll_remove_ (lists[a], e);
-			lists[nlists++] = e;
-		} else if (op[0] == 'S') {
-			if (scanf ("%d %d %d", &a, &b, &c) != 3) return 2;
-			nsync_dll_splice_after_ (kth (lists[a], b), nsync_dll_first_ (lists[c])); lists[c] = NULL;
 		} else if (op[0] == 'P') {
 			print_all ();
-		} else return 3;
+		} else if (op[0] == 'T') {
+			if (nsnap >= MAXSNAP) return 4;
+			memcpy (snap[nsnap].el, el, sizeof (el)); memcpy (snap[nsnap].lists, lists, sizeof (lists)); snap[nsnap].nlists = nlists;
+			nsnap++;
+			if (scanf ("%7s", op) != 1) return 2;
+			if ((r = apply (op)) != 0) return r;
+			print_all ();
+		} else if (op[0] == 'O') {
+			if (nsnap <= 0) return 4;
+			nsnap--;
+			memcpy (el, snap[nsnap].el, sizeof (el)); memcpy (lists, snap[nsnap].lists, sizeof (lists)); nlists = snap[nsnap].nlists;
+		} else if ((r = apply (op)) != 0) return r;
 	}
 	return 0;
 }
